@@ -375,6 +375,8 @@ def call_builtin(I, name, args, kwargs, node, frame):
         if name in ("list", "tuple") and isinstance(v, VTuple) and v.items and isinstance(v.items[0], VStr) and \
                 str(E.simp(v.items[0].t)).startswith('"#dict'):
             return v        # snapshot of a symbolic dict view: iteration order/keys are fixed when the loop is cut
+        if name in ("list", "tuple") and isinstance(v, VRef) and v.kind == "dict" and not run.rec(v.oid).concrete:
+            return VTuple([VStr("#dictkeys"), v])       # list(d) / tuple(d): a snapshot of the keys, like list(d.keys())
         if name == "list" and isinstance(v, VRef) and v.kind == "list" and not run.rec(v.oid).concrete:
             r = run.rec(v.oid).copy()
             return VRef(run.alloc(r), "list")
